@@ -1118,6 +1118,12 @@ M('C05', 'speigs: fallback search with its own loop variable, qi left stale (rou
 M('C03', 'init_LP relabels the boundary tensor of the ket in place (round-4 seed a)', MPS,
   "init_LP = U_ket.replace_label('vL', 'vR*')", "init_LP = U_ket.ireplace_label('vL', 'vR*')", 'OWN-borrowed')
 
+M('C09', 'enlarge_chi reads the last bond charge from the unconjugated vR leg (original defect)', MPS,
+  "leg = self._B[-1].get_leg('vR').conj()", "leg = self._B[-1].get_leg('vR')", 'LEG-side-direction')
+M('C07', 'entanglement_spectrum: boundary leg not conjugated (round-4 seed a)', MPS,
+  "                    leg = self._B[i - 1].get_leg('vR').conj()\n", "                    leg = self._B[i - 1].get_leg('vR')\n",
+  'LEG-side-direction')
+
 # ---------------------------------------------------------------- C16 / C19
 M('C16', 'GMRES restart: relative residual norm used for normalisation (round-3 seed b)', KRY,
   """        self.total_error.append([npc.norm(self.rs[-1]) / self.b_norm])
